@@ -539,6 +539,9 @@ func runStandins(prop, tier, repo, verifDir string) []standinResult {
 		if tier == "thorough" {
 			run, bound = s.RunThorough, s.BoundThorough
 		}
+		if run == "" {
+			continue // this stand-in runs in the other tier only
+		}
 		tmp, _ := os.MkdirTemp("", "standin")
 		tf := filepath.Join(verifDir, s.Test)
 		ov := fmt.Sprintf(`{"Replace":{"%s/%s/zz_standin_%s":"%s"}}`, repo, s.Pkg, filepath.Base(tf), tf)
